@@ -41,6 +41,8 @@ class Clock(object):
     return t
 
   def sleep(self, dt):
+    if dt < 0:
+      raise ValueError('sleep length must be non-negative')     # as time.sleep() does
     self.slept.append(dt)
     if dt > 0:
       self.now += dt
@@ -116,7 +118,11 @@ def dfs_shard(arg):
         if ev == 'bj':
           clock.jump = 1.0 / ideal.r          # the thread is descheduled for one token's worth of time after its first clock read
           ev = 'b'
-        ok = bucket.drain(1, blocking=(ev == 'b'))
+        try:
+          ok = bucket.drain(1, blocking=(ev == 'b'))
+        except Exception as e:   # noqa
+          bad.append(('acquisition-raised', 'drain(1, blocking=%r) raised %r after %r' % (ev == 'b', e, hist), hist))
+          return None
         clock.jump = 0.0
         now2 = clock.now
         if ev == 'b':
@@ -193,8 +199,11 @@ def dfs_shard(arg):
 
 
 # ---- writer level ---------------------------------------------------------------------------------------------------
+FAULT_PATTERNS = (None, 'create:all', 'create:round0', 'create:round1-2', 'create:odd', 'write:all', 'write:odd')
+
+
 def writer_case(arg):
-  inject_at, on_shutdown = arg
+  inject_at, on_shutdown, failing = (tuple(arg) + (None,))[:3]
   settings = env.boot()
   env.private_conf()
   env.reset_state()
@@ -223,7 +232,7 @@ def writer_case(arg):
       time = staticmethod(clock.time)
       sleep = staticmethod(clock.sleep)
     carbon.writer.time = VT
-    calls = {'n': 0}
+    calls = {'n': 0, 'round': 0, 'create': 0, 'write': 0, 'faults': 0}
     changed_at = [None]
 
     def fault(op, metric):
@@ -231,6 +240,14 @@ def writer_case(arg):
         changed_at[0] = clock.now
         carbon.writer.shutdownModifyUpdateSpeed()
       calls['n'] += 1
+      if failing and op == failing.split(':')[0]:
+        calls[op] += 1
+        how = failing.split(':')[1]
+        hit = (how == 'all' or (how == 'round0' and calls['round'] == 0) or (how == 'round1-2' and calls['round'] in (1, 2))
+               or (how == 'odd' and calls[op] % 2 == 1))
+        if hit:
+          calls['faults'] += 1
+          return True
       return False
     db = VerifMemDatabase(fault=fault, clock=clock.time)
     state.database = db
@@ -238,12 +255,14 @@ def writer_case(arg):
     for i in range(6):
       cache.store('m%d' % i, (1, float(i)))
     for rounds in range(4):
+      calls['round'] = rounds
       carbon.writer.writeCachedDataPoints()
       clock.now += 30.0
       for i in range(6):
         cache.store('m%d' % i, (2 + rounds, float(i)))
     for op, (c0, r0) in (('write', (2, 2.0)), ('create', (2, 2.0 / 60))):
-      times = [e[3] for e in db.log if e[0] == op and e[2] == 'ok']
+      # call times of the backend operation, whether or not the call succeeded (a failing disk is when the limit matters)
+      times = [e[3] for e in db.log if e[0] == op]
       limits = [(0.0, c0, r0)]
       if changed_at[0] is not None and on_shutdown is not None:
         limits.append((changed_at[0], on_shutdown, float(on_shutdown)))
@@ -251,14 +270,14 @@ def writer_case(arg):
         v = window_violation(times[:j], limits)
         if v:
           bad.append(('writer-rate-exceeded:' + op, 'backend %s calls: %s (shutdown change injected before backend call %r, '
-                      'MAX_UPDATES_PER_SECOND_ON_SHUTDOWN=%r)' % (op, v, inject_at, on_shutdown),
-                      {'inject_at': inject_at, 'on_shutdown': on_shutdown}))
+                      'MAX_UPDATES_PER_SECOND_ON_SHUTDOWN=%r, failing backend calls: %r)' % (op, v, inject_at, on_shutdown, failing),
+                      {'inject_at': inject_at, 'on_shutdown': on_shutdown, 'failing': failing}))
           break
     nw = sum(1 for e in db.log if e[0] == 'write')
     ncr = sum(1 for e in db.log if e[0] == 'create')
   finally:
     carbon.util.time, carbon.util.sleep = saved
-  return {'writes': nw, 'creates': ncr, 'calls': calls['n']}, bad
+  return {'writes': nw, 'creates': ncr, 'calls': calls['n'], 'faults': calls['faults']}, bad
 
 
 def run(ctx):
@@ -280,11 +299,13 @@ def run(ctx):
     total['maxburst'][repr(cfg[0])] = max(total['maxburst'].get(repr(cfg[0]), 0), st['maxburst'])
     for key, what, hist in bad:
       ctx.violation(key, what, {'config': cfg[0], 'history': hist})
-  wtasks = [(i, s) for s in (None, 10) for i in ([None] + list(range(0, 40)))]
+  wtasks = [(i, s, None) for s in (None, 10) for i in ([None] + list(range(0, 40)))]
+  wtasks += [(i, s, f) for f in FAULT_PATTERNS[1:] for s in (None, 10) for i in (None, 0, 3, 7)]
   wres = core.pmap(writer_case, wtasks, fresh=True)
-  wcalls = 0
+  wcalls = wfaults = 0
   for st, bad in wres:
     wcalls += st['calls']
+    wfaults += st['faults']
     for key, what, rep in bad:
       ctx.violation(key, what, rep)
   if not total['blocked'] or not total['refused']:
@@ -292,7 +313,7 @@ def run(ctx):
   # the histories are paths of a tree: every prefix is a state
   ctx.add(states=total['n'] + 1, transitions=total['n'], traces_validated_against_impl=total['n'], grants=total['grants'],
           blocking_waits=total['blocked'], refused=total['refused'], depth=depth, configurations=[list(x) for x in CONFIGS],
-          max_simultaneous_grants=total['maxburst'], writer_cases=len(wtasks), writer_backend_calls=wcalls,
+          max_simultaneous_grants=total['maxburst'], writer_cases=len(wtasks), writer_backend_calls=wcalls, writer_backend_faults_injected=wfaults,
           rule='all histories over 7 events to the stated depth per configuration (limit change at most once per history)')
   ctx.sample({'config': [2, 0.5], 'history': ['a2', 'd', 'd', 'd', 'd'], 'note': 'idle for capacity/rate then 2 x capacity grants at one instant'})
   ctx.sample({'writer': 'MAX_UPDATES_PER_SECOND=2 MAX_CREATES_PER_MINUTE=2, shutdown change before backend call 3'})
@@ -309,7 +330,7 @@ def replay(path):
     if not bad:
       print('oracle: holds')
     return 1 if bad else 0
-  st, bad = writer_case((rep['inject_at'], rep['on_shutdown']))
+  st, bad = writer_case((rep['inject_at'], rep['on_shutdown'], rep.get('failing')))
   for key, what, _r in bad:
     print('oracle: [%s] %s' % (key, what))
   return 1 if bad else 0
